@@ -737,6 +737,22 @@ func (ev *SpecEnv) callExpr(x *ast.CallExpr) (Val, types.Type) {
 		need(1)
 		v, t := ev.eval(x.Args[0])
 		return Scalar{ev.num(v, t, x.Args[0])}, nil
+	case "mval":
+		need(1)
+		v, t := ev.eval(x.Args[0])
+		return Scalar{ev.mvalOf(v, t)}, nil
+	case "implements":
+		need(2)
+		v, _ := ev.eval(x.Args[0])
+		iv, ok := v.(IfaceV)
+		if !ok {
+			ev.fail("implements() of non-interface value")
+		}
+		it := ev.ex.P.LookupType(exprString(x.Args[1]), ev.pkg)
+		if it == nil {
+			ev.fail("unknown interface %s", exprString(x.Args[1]))
+		}
+		return Scalar{ev.ex.implementsTerm(iv, it)}, nil
 	case "valid":
 		need(1)
 		v, t := ev.eval(x.Args[0])
